@@ -38,3 +38,29 @@ package bufioutil
 //@ func BufioWriter.Size
 //@   ensures result == int64(self.n) && self.n >= 0
 //@ end
+
+//@ # ---- journal reader (C01): the manifest is read back entry by entry. An entry whose length header or content is
+//@ # cut off at the end of the file was being appended when the writer died: it is not an entry - Next ends the journal
+//@ # there instead of presenting the short read as an error of an entry (which made recovery fail) ------------------
+//@ globalinv io.EOF != nil && io.ErrUnexpectedEOF != nil && io.EOF != io.ErrUnexpectedEOF
+//@ # assumption: a length header that is read back completely is one the entry writer wrote (crashes truncate the
+//@ # journal, they do not corrupt it): it fits an allocation
+//@ extern func encoding/binary.ReadUvarint
+//@   modifies *
+//@   ensures result1 == nil ==> result0 <= 1099511627776
+//@ end
+//@ extern func io.ReadFull
+//@   modifies *
+//@   ensures n >= 0 && n <= len(buf)
+//@ end
+//@ extern func github.com/lindb/lindb/pkg/stream.UvariantSize
+//@   modifies nothing
+//@   ensures result >= 1 && result <= 10
+//@ end
+//@ stable bufioEntryReader.r
+//@ func bufioEntryReader.Next
+//@   prop C01
+//@   requires br.r != nil
+//@   modifies *
+//@   ensures[a_half_written_tail_entry_ends_the_journal] result ==> (br.err != io.ErrUnexpectedEOF && br.err != io.EOF)
+//@ end
